@@ -518,7 +518,7 @@ def gen_opt(i):
 # ------------------------------------------------------------------------------------------------
 # family style: cellXfs resolution
 STYLE_CASES = ["font-bold", "font-name-size", "font-italic-strike-underline", "font-color-rgb", "fill-solid", "border-thin-bottom", "numfmt-builtin-2", "numfmt-custom", "alignment", "protection-unlocked",
-               "apply-fill-absent", "xf-order-two-styles", "row-style", "col-style"]
+               "apply-fill-absent", "xf-order-two-styles", "row-style", "col-style", "numfmt-element-defines-id-14", "numfmt-element-defines-id-44"]
 
 
 def gen_style(i):
@@ -566,6 +566,17 @@ def gen_style(i):
         numfmts = '<numFmts count="1"><numFmt numFmtId="170" formatCode="0.000&quot;kg&quot;"/></numFmts>'
         xf = '<xf numFmtId="170" fontId="0" fillId="0" borderId="0" xfId="0" applyNumberFormat="1"/>'
         want = {"numfmt": '0.000"kg"'}
+    elif sc == "numfmt-element-defines-id-14":
+        # a <numFmt> element may carry an id below 164 (non-US Excel and WPS write such entries): the file's code counts,
+        # not the implied one of that id
+        numfmts = '<numFmts count="1"><numFmt numFmtId="14" formatCode="dd/mm/yyyy"/></numFmts>'
+        xf = '<xf numFmtId="14" fontId="0" fillId="0" borderId="0" xfId="0" applyNumberFormat="1"/>'
+        want = {"numfmt": "dd/mm/yyyy"}
+    elif sc == "numfmt-element-defines-id-44":
+        code = '_-* #,##0.00\\ "EUR"_-;\\-* #,##0.00\\ "EUR"_-;_-* "-"??\\ "EUR"_-;_-@_-'
+        numfmts = '<numFmts count="1"><numFmt numFmtId="44" formatCode="%s"/></numFmts>' % esca(code)
+        xf = '<xf numFmtId="44" fontId="0" fillId="0" borderId="0" xfId="0" applyNumberFormat="1"/>'
+        want = {"numfmt": code}
     elif sc == "alignment":
         xf = '<xf numFmtId="0" fontId="0" fillId="0" borderId="0" xfId="0" applyAlignment="1"><alignment horizontal="center" vertical="top" wrapText="1" textRotation="45"/></xf>'
         want = {"alignment": {"h": "center", "v": "top", "wrap": True, "rotation": 45}}
